@@ -198,9 +198,13 @@ class SyncedDict(SyncedCollection, MutableMapping):
 
         """
         if _mapping_resolver.get_type(data) == "MAPPING":
-            self._update(data)
-            with self._thread_lock:
-                self._save()
+            if self._root is None:
+                with self._thread_lock:
+                    self._update(data)
+                    self._save()
+            else:
+                with self._load_and_save:
+                    self._update(data)
         else:
             raise ValueError(
                 "Unsupported type: {}. The data must be a mapping or None.".format(
@@ -235,9 +239,15 @@ class SyncedDict(SyncedCollection, MutableMapping):
         return ret
 
     def clear(self):  # noqa: D102
-        self._data.clear()
-        with self._thread_lock:
-            self._save()
+        if self._root is None:
+            # The root does not load first: clearing is also the way to recover
+            # from an unreadable resource. The change is made under the lock.
+            with self._thread_lock:
+                self._data.clear()
+                self._save()
+        else:
+            with self._load_and_save:
+                self._data.clear()
 
     def update(self, other=None, **kwargs):  # noqa: D102
         if other is not None:
